@@ -15,7 +15,7 @@ EVENTS = ["CER", "CER-other-host", "CER-odd-flags", "CEA", "CEA-other-host", "DW
           "peer-disconnect", "idle", "CEA-duplicate", "DWA-echo", "DWA-echo-twice",
           # requests addressed by host only / realm only / to another realm (RFC 6733 6.1.4: local consumption)
           "APP-req-host-only", "APP-req-realm-only", "APP-req-other-realm"]
-FOR_THIS_NODE = ("APP-req", "APP-req-host-only", "APP-req-realm-only")
+FOR_THIS_NODE = ("APP-req", "APP-req-realm-only")    # host-only (no Destination-Realm at all) is observed, not judged: RFC 6733 wants the realm in every request
 FOR_ANOTHER_NODE = ("APP-req-misaddressed", "APP-req-other-realm")
 # the same valid base messages carrying the optional Origin-State-Id AVP their grammar allows: same cells as the plain ones
 EVENTS_OPT = ["CER+osi", "CEA+osi", "DWR+osi", "DWA+osi",
